@@ -1,0 +1,29 @@
+//go:build verif
+
+// Copyright JAMF Software, LLC
+
+package table
+
+import (
+	"io"
+
+	"github.com/lni/dragonboat/v4"
+)
+
+// Re-exports for the verification harness (build tag verif). No logic.
+
+const (
+	VerifTableIDsRangeStart = tableIDsRangeStart
+	VerifKeyPrefix          = keyPrefix
+	VerifSequenceKey        = sequenceKey
+)
+
+func (m *Manager) VerifCreateTable(name string) (Table, error) { return m.createTable(name) }
+
+func (m *Manager) VerifReadIntoTable(id uint64, reader io.Reader) error {
+	return m.readIntoTable(id, reader)
+}
+
+func VerifDiffTables(tables map[string]Table, raftInfo []dragonboat.ShardInfo) (map[uint64]Table, []uint64) {
+	return diffTables(tables, raftInfo)
+}
